@@ -9,14 +9,14 @@ mkdir -p /tmp/vs
 rm -rf "$W"; git -C /repo worktree prune
 git -C /repo worktree add -q --detach "$W" HEAD || { echo "$P-$N: worktree failed"; exit 2; }
 cd "$W"
-cp "$SRC/demo$N.py" "$W/_demo.py"
+mkdir -p "$W/_seed"; cp "$SRC/demo$N.py" "$W/_seed/demo$N.py"
 export PYTHONDONTWRITEBYTECODE=1 PYTHONPATH="$W"
-timeout 300 /venv/bin/python _demo.py >/tmp/vs/$P-$N.clean.log 2>&1; RC_CLEAN=$?
+timeout 600 /venv/bin/python _seed/demo$N.py >/tmp/vs/$P-$N.clean.log 2>&1; RC_CLEAN=$?
 if ! git apply --check "$SRC/patch$N.diff" 2>/tmp/vs/$P-$N.apply.log; then
   echo "$P-$N: PATCH-DOES-NOT-APPLY"; cd /; git -C /repo worktree remove --force "$W"; exit 3
 fi
 git apply "$SRC/patch$N.diff"
-timeout 300 /venv/bin/python _demo.py >/tmp/vs/$P-$N.patched.log 2>&1; RC_PATCHED=$?
+timeout 600 /venv/bin/python _seed/demo$N.py >/tmp/vs/$P-$N.patched.log 2>&1; RC_PATCHED=$?
 timeout 1200 /venv/bin/python -m pytest -q -p no:cacheprovider --timeout=900 -rf 2>&1 | grep -E "^FAILED|passed|failed" | sed 's/ - .*//' | sort > /tmp/vs/$P-$N.tests.log
 TESTS_SAME=no
 if diff -q <(grep ^FAILED /tmp/vs/baseline.tests.log) <(grep ^FAILED /tmp/vs/$P-$N.tests.log) >/dev/null; then TESTS_SAME=yes; fi
